@@ -29,7 +29,7 @@ for d in sorted(glob.glob(os.path.join(root, 'checks', 'C*'))):
             "design_ref": lv.get("design_ref", "DESIGN.md §4 " + cid),
         },
         "level_note": lv.get("note", "; ".join(c.get("assumptions", [])) or "engine (go/ssa interpreter + term rewriting + z3) is trusted; see DESIGN.md §2"),
-        "technique": "go/ssa symbolic execution of the real functions + SMT (z3 4.8.12; z3 5.1.0 cross-check in thorough tier), counterexamples replayed natively",
+        "technique": "go/ssa symbolic execution of the real functions (own interpreter) + SMT: every branch and assertion on every path is decided by z3 5.1.0 (z3 4.8.12 re-decides the assertion queries in the thorough tier); counterexamples and sampled path models are replayed natively against the real build",
     })
 not_app = []
 for i in ids:
